@@ -8,7 +8,8 @@ for d in "$HERE"/selftest/equivalent/*.diff; do
   name=$(basename "$d" .diff)
   if [ -n "$EQUIV_ONLY" ]; then case "$name" in $EQUIV_ONLY) ;; *) continue ;; esac; fi
   W=$(mktemp -d /tmp/equiv_XXXXXX)
-  cp -r "$SRC/Geometry3D" "$SRC/docs" "$SRC/unit_tests" "$W/" 2>/dev/null
+  # the committed HEAD of the snapshot (not its working tree: a seeded change may be applied there at this moment by tools/seed_eval.py)
+  if git -C "$SRC" rev-parse HEAD >/dev/null 2>&1; then git -C "$SRC" archive HEAD Geometry3D docs unit_tests | tar -x -C "$W"; else cp -r "$SRC/Geometry3D" "$SRC/docs" "$SRC/unit_tests" "$W/" 2>/dev/null; fi
   (cd "$W" && git init -q . && git apply "$d") || { echo "EQUIV $name: patch does not apply"; rm -rf "$W"; continue; }
   t=$(cd "$W" && PYTHONPATH="$W" /venv/bin/python -m pytest -q -p no:cacheprovider unit_tests 2>&1 | tail -1)
   for c in $CHECKS; do
